@@ -1,18 +1,23 @@
 (* C01 - the property theorems, nothing else.
 
-   The full statement of the property on the core fragment,
+   The skeleton mapping of the core fragment (wf, C01.RtSteps): one field; domain axes; data over some of them; per
+   axis at most one dimension coordinate (coordinate variable, or scalar coordinate variable on a size-1 axis
+   the data do not span); auxiliary coordinates over data axes, numeric or string valued; bounds; cell
+   measures; field ancillaries; cell methods; netCDF names set or unset; every write option.
 
-     C01_roundtrip_core : forall o f, wf f ->
-        read_skel (write_skel o f) = [relabel (axis_labels o f) (fill_names o f)]
-        (exactly one construct; every axis index replaced by a distinct label; unset names filled,
-         set names kept)
+   C01_exactly_one and C01_roundtrip_core are proved for EVERY well-formed skeleton and EVERY option record by
+   induction over the axis list / the construct lists with an invariant of the writer state
+   (RtWriter, RtSteps, RtAxis, RtPhases, RtSummary) and a reading of the resulting dataset (RtReader).
 
-   is NOT proved here (time): it is evaluated per generated case by C01.Run.check_one / check_write /
-   check_read against the implementation, and the pieces it rests on are the theorems below:
-   the name allocator never hands out a used name and keeps a free one (so set names survive and
-   variables stay distinct), reference attributes parse back to the names they were assembled
-   from, the char storage of strings is invertible, and no other write option reaches the mapping. *)
-From CfdmV Require Import Common.Base C01.Model C01.Lemmas.
+   Still NOT proved: that every netCDF name that had been set is the name read back
+   (C01_names_kept: needs "a set name is unused when it is requested", i.e. set names pairwise distinct
+   and different from every default name; C01_name_allocator_keeps_free_name is the step lemma).  For the
+   netCDF dimension name of bounds the full statement is false of the faithful model:
+   C01_bounds_dimension_name_refuted (known finding bounds-dimension-name-shared-by-size); exact guard:
+   no bounds construct written earlier has the same number of vertices. *)
+From CfdmV Require Import Common.Base C01.Model C01.Lemmas C01.RtStrings C01.RtWriter C01.RtSteps C01.RtAxis
+  C01.RtPhases C01.RtSummary C01.RtReader C01.Run C01.RtGuard.
+
 Open Scope string_scope.
 Open Scope list_scope.
 
@@ -70,3 +75,62 @@ Theorem C01_options_irrelevant :
   forall o o' f, o_coordinates o = o_coordinates o' -> write_skel o f = write_skel o' f.
 Proof. exact options_irrelevant. Qed.
 Print Assumptions C01_options_irrelevant.
+
+(* ------------------------------------------------------------------ the round trip of the core fragment *)
+
+(* The reader's reference census of the dataset written for any well-formed skeleton leaves exactly
+   one variable unreferenced, and it is the data variable (written last, over the data axes, no bounds):
+   exactly one field construct is read. *)
+Theorem C01_exactly_one :
+  forall o f, wf f ->
+  exists vs dvar, d_vars (write_skel o f) = vs ++ [dvar] /\ data_vars (write_skel o f) = [dvar] /\
+                  length (v_dims dvar) = length (f_data_axes f) /\ attr "bounds" dvar = None.
+Proof. exact exactly_one_core. Qed.
+Print Assumptions C01_exactly_one.
+
+(* read_skel (write_skel o f) is one construct r, and r is f up to names: there is an injective labelling
+   lab of the axes of f such that (iso) the data of r span lab of the data axes in the same order, the
+   axes of r are the labelled axes of f with their sizes and unlimited flags (spanned axes first, then
+   the size-1 axes of the scalar coordinates), the metadata constructs of r are, one for one (Forall2,
+   in the order expected_cons), those of f with the same type, the same axes under lab, bounds present
+   exactly when f has them, the same measure, and the cell methods are those of f over the labelled axes. *)
+Theorem C01_roundtrip_core :
+  forall o f, wf f ->
+  exists r lab, read_skel (write_skel o f) = [r] /\ iso f lab r /\
+    (forall a a', a < naxes f -> a' < naxes f -> lab a = lab a' -> a = a').
+Proof. exact roundtrip_core. Qed.
+Print Assumptions C01_roundtrip_core.
+
+(* expected_cons lists every metadata construct of f (and nothing else) when no two dimension
+   coordinates share an axis: no construct is dropped or invented by the round trip. *)
+Theorem C01_every_construct_read_back :
+  forall f, wf f -> dim_unique f -> forall c, In c (f_cons f) <-> In c (expected_cons f).
+Proof. exact every_construct_expected. Qed.
+Print Assumptions C01_every_construct_read_back.
+
+(* non-vacuity: a skeleton with an unlimited coordinate variable with bounds, a scalar coordinate, a 2-d
+   auxiliary coordinate with bounds, a string-valued auxiliary coordinate, a cell measure, a field
+   ancillary and two cell methods is well formed *)
+Theorem C01_wellformed_example : wf ex_skel /\ dim_unique ex_skel.
+Proof. exact ex_skel_wf. Qed.
+Print Assumptions C01_wellformed_example.
+
+(* the netCDF dimension name set on a Bounds is NOT always kept: an earlier bounds dimension of the same
+   size is reused (faithful to _netcdf_name(dimsize=, role='bounds')); known finding
+   bounds-dimension-name-shared-by-size *)
+Theorem C01_bounds_dimension_name_refuted :
+  exists o f, wf f /\ (exists c b, In c (f_cons f) /\ c_bounds c = Some b /\ b_ncdim b = Some "nv") /\
+    forall r, read_skel (write_skel o f) = [r] -> forall rc, In rc (rs_cons r) -> r_bdim rc <> Some "nv".
+Proof. exact bounds_dimension_name_refuted. Qed.
+Print Assumptions C01_bounds_dimension_name_refuted.
+
+(* The same under the executable guard C01.Run.check_wf, which the harness evaluates on every in-fragment case
+   the implementation ran on (so the cases compared with cfdm lie inside the domain of the theorems):
+   one construct, isomorphic, injective labelling, and every construct of f is among those read. *)
+Theorem C01_roundtrip_checked :
+  forall o f, check_wf (o, f) = true ->
+  exists r lab, read_skel (write_skel o f) = [r] /\ iso f lab r /\
+    (forall a a', a < naxes f -> a' < naxes f -> lab a = lab a' -> a = a') /\
+    (forall c, In c (f_cons f) <-> In c (expected_cons f)).
+Proof. exact roundtrip_checked. Qed.
+Print Assumptions C01_roundtrip_checked.
